@@ -831,6 +831,14 @@ def failure_points(c, sids, gen):
 
 def violation_slug(c, code, sids, gen):
     """names the failing history: where the first undisturbed start got stuck"""
+    if code == 3 and (c.get("nhosts") or 1) >= 2 and c["cfg"].get("clustered"):
+        # round 8: starts that APPLIED script statements went through different hosts: the statements without ON CLUSTER
+        # are spread over several hosts (theorem resumed_start_through_another_host_refuted); anything else stays a violation
+        conn = list(c.get("conn") or [])
+        conn += [0] * (len(c["runs"]) - len(conn))
+        used = {conn[i] for i, r in enumerate(c["runs"]) if any(e["t"] == "s" and e.get("r") in ("ok", "fa", "fp") for e in r["log"])}
+        if len(used) >= 2:
+            return "resumed-start-through-another-host"
     if code in (2, 3) and len(c["runs"]) >= 2:
         conv = c["runs"][-2]
         cur = None
